@@ -945,6 +945,11 @@ package server
 // predicate filters and is a live key; the scan of every page starts at the top of the start entity's key range (the
 // seen-set is rebuilt from there); the continuation pins the instant and the query
 
+// an injective pairing of (predicate id, entity id), used as the element type of ghost sets of relations
+//@ spec pairKey(a int, b int) int
+//@ spec pairFst(k int) int
+//@ spec pairSnd(k int) int
+//@ axiom pairKey_injective: forall a int, b int :: pairFst(pairKey(a, b)) == a && pairSnd(pairKey(a, b)) == b
 //@ unit (*Store).GetRelatedAtTime
 //@   prop C03 C06 C07
 //@   ghost delG intmap
@@ -977,9 +982,9 @@ package server
 //@   at $1 call append#4 before
 //@     assert [C03,C06,C07:incoming-result-passed-the-dataset-time-and-predicate-filters] !(has(s.deletedDatasets, dsResult.DatasetID) && s.deletedDatasets[dsResult.DatasetID]) && (len(from.Datasets) == 0 || (exists k int :: 0 <= k && k < len(from.Datasets) && from.Datasets[k] == dsResult.DatasetID)) && dsResult.Time <= from.At && (from.Predicate == 0 || from.Predicate == dsResult.PredicateID)
 //@   at $1 call Equal#1 before
-//@     ghost earlierG := del != 1 ? add(earlierG, predID * 18446744073709551616 + relatedID) : earlierG
+//@     ghost earlierG := del != 1 ? add(earlierG, pairKey(predID, relatedID)) : earlierG
 //@   at $1 call append#5 before
-//@     assert [C03:outgoing-relation-not-already-returned-by-an-earlier-page] !has(earlierG, predID * 18446744073709551616 + relatedID)
+//@     assert [C03:outgoing-relation-not-already-returned-by-an-earlier-page] !has(earlierG, pairKey(predID, relatedID))
 //@     assert [C07:result-dataset-not-deleted] !(has(s.deletedDatasets, datasetID) && s.deletedDatasets[datasetID])
 //@     assert [C03:result-dataset-in-scope] len(from.Datasets) == 0 || (exists k int :: 0 <= k && k < len(from.Datasets) && from.Datasets[k] == datasetID)
 //@     assert [C06:result-not-recorded-after-the-requested-instant] et <= from.At
@@ -1011,7 +1016,9 @@ package server
 //@     invariant seenIds != nil && added != nil && !foreign(seenIds) && !foreign(added)
 //@     invariant forall p uint64 :: has(seenIds, p) ==> seenIds[p] != nil && !foreign(seenIds[p]) && has(added, p) && added[p] != nil && !foreign(added[p])
 //@     invariant forall p uint64, r uint64 :: has(seenIds, p) && has(seenIds[p], r) ==> seenIds[p][r] != nil && !foreign(seenIds[p][r])
-//@     invariant forall p uint64, r uint64 :: has(earlierG, p * 18446744073709551616 + r) ==> has(added, p) && has(added[p], r) && added[p][r]
+//@     invariant forall p uint64 :: has(added, p) ==> has(seenIds, p)
+//@     invariant forall p uint64 :: has(added, p) ==> allocated(added[p])
+//@     invariant forall p uint64, r uint64 :: has(earlierG, pairKey(p, r)) ==> has(added, p) && has(added[p], r) && added[p][r]
 //@   loop $1:7
 //@     invariant -1 <= $i && $i < len(from.Datasets)
 //@     invariant datasetIncluded <==> (len(from.Datasets) == 0 || (exists k int :: 0 <= k && k <= $i && from.Datasets[k] == datasetID))
